@@ -14,13 +14,21 @@ LEVEL_NOTE = ("Proved over a byte-level model of the 8+8+4+4 print variants of p
               "hypothesis: C13_strip_buf_full_false), one separator after each message and none inside (C13_separator), colour adds only escapes "
               "(C13_colour_only_escapes), ASCII names are padded to the common width (C13_align). False of the code, with witnesses: the accounting-record variant "
               "without colour writes the datetime before the file name (C13_field_order_full_false) and -w pads by char count to a width in display columns "
-              "(C13_align_full_false). Tied to the code by running the real binary over the option cross product on sources of all four kinds and comparing stdout "
-              "byte for byte with the model's rendering (driver op `prt run`); the expected datetime field is computed independently of s4 and chrono.")
+              "(C13_align_full_false). Lines split over read blocks: `hlParts` mirrors the loop of print_color_line_highlight_dt! over the lineparts literally and its "
+              "per-part body is proved equal to the body TRANSLATED from printers.rs on every run (hlPart_matches_source: the five cases, their comparisons, the bounds of "
+              "every &slice[..], the colour of every write); for every partition of a line and every datetime span b<=e the writes are the line (C13_parts_bytes), byte i is "
+              "written under the datetime colour iff b<=i<e and under the text colour otherwise (C13_parts_dt, C13_parts_dt_bytes), so the plain and counted streams are "
+              "those of the one-part model (hlParts_eq_hlLine) and the theorems above extend to multi-part lines. Tied to the code by running the real binary over the option cross product on sources of all four kinds and comparing stdout "
+              "byte for byte with the model's rendering (driver op `prt run`); the expected datetime field is computed independently of s4 and chrono; and in-process "
+              "(harness component `prt`, driver op `prt sys`): real Syslines read at block sizes 8..8192 (first lines of up to hundreds of parts, datetime straddling part "
+              "boundaries, messages larger than the print buffer) printed by the real PrinterLogMessage::print_sysline with fd 1 redirected: bytes, (printed, flushed) and "
+              "the colour of every byte equal the model's.")
 ASSUME = ["strftime rendering (chrono) and the escape bytes of a ColorSpec (termcolor) are not modelled: the datetime field enters the model already formatted "
           "(computed independently in Python from the message's instant, zone and format), the escape bytes are parameters required to be runs of ESC[...m",
           "the datetime field is strftime(format ++ prepend separator) as coded (s4.rs first_print); the independent renderer assumes a separator without '%' "
           "(separators with '%' are probed separately: known finding F14)",
-          "a line is modelled as one linepart (the default block size holds every generated line); write errors are not modelled",
+          "write errors are not modelled; the lineparts of a line are taken to be its pieces between block boundaries (checked against count_lineparts() and the "
+          "line's bytes in the harness); the datetime span (dt_beg, dt_end) of a Sysline is read from its Debug rendering",
           "the datetime highlight span of a message is read off the `--color always` run without prefixes and then used to predict every other colour run"]
 
 
@@ -127,8 +135,7 @@ def oracle_and_corr(ctx):
 def oracle_multipart(ctx):
     """Lines split across read blocks, timestamp not at column 0 (e.g. `<14>2020-…`), colour on:
     the decorated output with the escapes (and prefixes) removed must equal the undecorated output
-    at the same block size. (Multi-part lines are outside the Lean print model; this is the
-    implementation-side property itself.)"""
+    at the same block size. (The end-to-end counterpart of C13_parts_bytes.)"""
     import os
     rng = e2e.Rng(ctx.seed * 89 + 3)
     fails, ev = [], 0
@@ -195,13 +202,21 @@ def model_run_compare(ctx, reqs, impl):
     return res
 
 
+def corr_prt(ctx):
+    """real Syslines (lineparts) through the real print_sysline vs the buffer/lineparts model"""
+    os.environ['S4H_TMP'] = os.path.join(ctx.work, 'tmp')
+    return core.correspond(ctx, 'prt', ctx.q(2000, 20000))
+
+
 def check(ctx):
-    prove = core.step_prove(ctx, MODS)
-    ok_drv = core.step_drv(ctx)
-    ok_impl = core.step_build_impl(ctx, need_harness=False)
+    ok_gen = core.step_gen(ctx, ['Print'])
+    prove = core.step_prove(ctx, MODS) if ok_gen else {'module': ' '.join(MODS), 'obligations': 0, 'discharged': 0}
+    ok_drv = core.step_drv(ctx) if (ok_gen or ctx.search_mode) else False
+    ok_impl = core.step_build_impl(ctx, need_harness=True)
     orc, corr = (None, [])
     if ok_impl and ok_drv:
         orc, corr = oracle_and_corr(ctx)
+        corr = corr + [corr_prt(ctx)]
         orc = core.merge_oracles([orc, oracle_multipart(ctx)])
     return core.decide(ctx, prove, corr, orc, LEVEL_NOTE, ASSUME)
 
